@@ -178,7 +178,7 @@ def cases(seed, tier):
         pool = pools[arch]
         nf = 1 if rng.random() < 0.75 else 2
         faults = [copy.deepcopy(rng.choice(pool)) for _ in range(nf)]
-        net = gen.rand_net(rng, inside_lines=False)
+        net = gen.rand_net(rng)
         if net['rtt_us'] > 60000:
             net['rtt_us'] = 60000
         yield {'arch': arch, 'faults': faults, 'opts': rng.choice(TEXT_OPTS), 'timeout': rng.choice([1, 2, 5]), 'net': net,
